@@ -466,7 +466,8 @@ impl<'a> G<'a> {
                     } else {
                         self.map_lit(d)
                     };
-                    let f = *self.rng.pick(&["a", "b", "c", "ab", "zz"]);
+                    // field names that are also names of registered functions: presence is about the map alone
+                    let f = *self.rng.pick(&["a", "b", "c", "ab", "zz", "size", "min", "max", "contains", "string", "matches", "int"]);
                     t(format!("has(({}).{})", m.src, f), format!("(has {} {})", m.wire, sx_str(f)), m.ops + 1)
                 }
                 13 => {
